@@ -457,7 +457,7 @@ func (r *ltRec) chain(s *Step) error {
 	case "ReorgStep":
 		det, done := s.Det, s.Done
 		e.Det, e.Done = &det, &done
-	case "Announce":
+	case "Announce", "Reannounce":
 		e.T = s.T
 	}
 	r.add(e)
@@ -550,7 +550,7 @@ func (r *ltRec) lines() []json.RawMessage {
 			m["b"] = *e.B
 		case "ReorgStep":
 			m["det"], m["done"] = *e.Det, *e.Done
-		case "Announce":
+		case "Announce", "Reannounce":
 			m["t"] = e.T
 		case "q.begin":
 			m["api"], m["w"] = e.Op, e.W
